@@ -1,7 +1,9 @@
 //! gv — the conformance harness: drives the real grenad (path dependency on /repo, built with
 //! --cfg grenad_verif) and records one ndjson event per public call. TLC validates the traces.
 mod cursor;
+mod decode;
 mod files;
+mod layout;
 mod util;
 
 use std::path::PathBuf;
@@ -18,12 +20,15 @@ fn run_scenario(out: &mut TraceOut, family: &str, seed: u64, idx: u64, heavy: bo
     let mut r = rng(seed, family_stream(family).wrapping_add(idx.wrapping_mul(7919)));
     out.begin(&format!("{}/{}/{}", family, seed, idx));
     match family {
-        "roundtrip" => cursor::scn_roundtrip(out, &mut r, heavy, 2),
-        "roundtrip_v1" => cursor::scn_roundtrip(out, &mut r, heavy, 1),
-        "seeks" => cursor::scn_seeks(out, &mut r, heavy, 2, if heavy { 400 } else { 60 }),
-        "seeks_v1" => cursor::scn_seeks(out, &mut r, heavy, 1, 60),
-        "history" => cursor::scn_history(out, &mut r, heavy, 2, if heavy { 1500 } else { 400 }),
-        "history_v1" => cursor::scn_history(out, &mut r, heavy, 1, 300),
+        "roundtrip" => cursor::scn_roundtrip(out, &mut r, idx, heavy, 2),
+        "roundtrip_v1" => cursor::scn_roundtrip(out, &mut r, idx, heavy, 1),
+        "seeks" => cursor::scn_seeks(out, &mut r, idx, heavy, 2, if heavy { 400 } else { 60 }),
+        "seeks_v1" => cursor::scn_seeks(out, &mut r, idx, heavy, 1, 60),
+        "history" => cursor::scn_history(out, &mut r, idx, heavy, 2, if heavy { 1500 } else { 400 }),
+        "history_v1" => cursor::scn_history(out, &mut r, idx, heavy, 1, 300),
+        "format" => layout::scn_format(out, &mut r, idx, heavy),
+        "cut" => layout::scn_cut(out, &mut r, idx, heavy),
+        "unsorted" => layout::scn_unsorted(out, &mut r, idx, heavy),
         "big" => {
             use rand::Rng;
             let n = *pick(&mut r, &[1000u32, 10_000, 100_000]);
